@@ -4,6 +4,7 @@ package main
 import (
 	"flag"
 	"fmt"
+	"go/token"
 	"os"
 	"runtime/debug"
 	"sort"
@@ -54,6 +55,32 @@ func main() {
 		prop := fs.String("prop", "all", "property id")
 		fs.Parse(os.Args[2:])
 		os.Exit(runSelftest(*prop))
+	case "anchors":
+		// list the functions of the module that the rules refer to by name (never inlined)
+		p := LoadProgram(repoDir(), nil, "linux", "amd64")
+		if len(os.Args) > 2 && os.Args[2] == "-ref" {
+			writeAnchorRef(p)
+			return
+		}
+		var names []string
+		for pk, sp := range p.SSAPkg {
+			if strings.Contains(pk, "/tests/") || strings.HasSuffix(pk, "/tests") {
+				continue
+			}
+			for _, f := range pkgFuncs(p.SSA, sp) {
+				if f.Parent() == nil && f.Synthetic == "" && isAnchored(f) {
+					ex := "exported"
+					if !token.IsExported(f.Name()) {
+						ex = "unexported"
+					}
+					names = append(names, ex+" "+fnName(f))
+				}
+			}
+		}
+		sort.Strings(names)
+		for _, n := range names {
+			fmt.Println(n)
+		}
 	case "replay":
 		// re-run a property and print the violations file it produces
 		fs := flag.NewFlagSet("replay", flag.ExitOnError)
@@ -137,7 +164,7 @@ func runChecks(props []string, tier string, writeEv bool) (code int) {
 			r.Functions = p.NFuncs
 			runProp(id, p, r)
 		}
-		programs.Delete(p.SSA)
+		releaseProgram(p)
 		p = nil
 		debug.FreeOSMemory()
 	}
